@@ -1455,9 +1455,9 @@ def gen_world_wide_piece(rng):
     """C05 / C16: one piece spanning some seventy files, each with two byte-identical copies in the scan directories (as on a
     second run, when every file has its scan copy and its export copy): products of candidate counts pass 2^64"""
     w = World()
-    n = rng.range(66, 80)
+    n = rng.range(76, 86)
     files = [TFile(1 + i, [b"w%03d" % i], gen_content(rng, 1 + i)) for i in range(n)]
-    g = GT(b"wide", 8192, files, True)
+    g = GT(b"wide", 2100, files, True)            # two pieces: the first spans 64 files (1+2+…+64 = 2080 bytes), the second the rest
     w.gts = [g]; w.docs = [g.doc]
     w.dirs.add(w.export)
     w.scan = [(b"scan0",), (b"scan1",)]
